@@ -41,7 +41,7 @@ def model(name, contracts, ops, depth, fees="paid", bids=(8, 12), spreads=(0, 2)
         "Mult": {c: cs[c]["mult"] for c in contracts},
         "CashReq": {c: cs[c]["cashreq"] for c in contracts},
         "Mr": {c: cs[c]["mr"] for c in contracts},
-        "Fixed": fixed, "Prop": prop, "Deposit": deposit, "Rate": rate, "Markup": markup, "Epsilon": epsilon,
+        "Fixed": fixed, "Prop": prop, "Deposit": deposit, "Rate": rate, "RatePath": [], "Markup": markup, "Epsilon": epsilon,
         "Ops": set(ops), "Bids": set(bids), "Spreads": set(spreads), "DQs": {F(d) for d in dqs},
         "LotTargets": set(), "Reqs": set(), "Steps": set(steps),
     }
